@@ -85,6 +85,6 @@ Proof. exact written_once_upto. Qed.
     satisfies the model-independent trial-division specification ([spec_check]: every table entry is the
     least divisor found by trial division, the prime list is exactly the trial-division primes <= n, every
     factorisation record for m >= 1 lists trial-division primes strictly increasing with exponents >= 1 and
-    product m).  Nothing is excluded: a negative limit or [CPanic] already fails [model_check]. *)
+    product m).  Nothing is excluded: a negative limit, [CPanic] or [CIncoherent] already fails [model_check]. *)
 Theorem c13_model_check_spec_check : forall c : case, model_check c = true -> spec_check c = true.
 Proof. exact model_check_spec_check. Qed.
